@@ -15,7 +15,8 @@ LEVEL_TEXT = ('Static decision of the structural necessary conditions: on every 
               'on which the objective call raises (any exception type, including non-Exception ones), the exception '
               'is caught, Solve returns, and the global search does not resume; before the objective call of a '
               'regular iteration only queue contents, characteristics, the recalculation flag and the accuracy are '
-              'written; every recording effect (counters, z/index, optimum, insertion) comes after the call.')
+              'written; every recording effect (counters, z/index, optimum, insertion) comes after the call; a trial is '
+              'completely recorded before the next objective call starts (first iteration included).')
 EXPLANATION = ('The solve driver is explored with the chain down to the Problem.Calculate call site inlined and an '
                'exceptional continuation forked at that call (exception type unknown: a handler narrower than '
                'BaseException lets a copy of the path propagate). Effects before the call are classified from the '
